@@ -159,7 +159,9 @@ def localSchemaViol (n : Node) : List Viol :=
 
 /-- C12 on one (already well-typed) tree -/
 def schemaOK (n : Node) (dbg : Bool := false) : List Viol :=
-  (n.preorder.map fun m => (localSchemaViol m).map (· ++ (if dbg then s!"@{m.pos.1}-{m.pos.2}" else ""))).flatten
+  if dbg then
+    (n.preorder.map fun m => (localSchemaViol m).map (· ++ s!"@{m.pos.1}-{m.pos.2}")).flatten
+  else (n.preorder.map localSchemaViol).flatten
 
 /-! ## C04 / C05: text under spans -/
 
